@@ -720,9 +720,9 @@ func (viso *VirtualISO) read(buf []byte, off int64) (int64, error) {
 
 			// fill remaining space with zeroes
 			if fileItem.size%sectorSize > 0 && remain > 0 {
-				toWrite := sectorSize - fileItem.size%sectorSize
+				toWrite := fileItem.rLBA.bytes() + fileItem.size.sectors().bytes() - offset
 				if remain < toWrite {
-					remain = toWrite
+					toWrite = remain
 				}
 
 				for i := sizeBytes(0); i < toWrite; i++ {
